@@ -24,12 +24,19 @@ pub struct Sc {
     /// `-delete` is followed by `-o -quit`: the first removal that fails ends the walk
     #[serde(default)]
     pub quit_on_failure: bool,
+    /// the follow mode comes from `-follow` written at the very end of the expression, after
+    /// the action (a global option: it applies to the whole walk and to what -delete removes)
+    #[serde(default)]
+    pub follow_at_end: bool,
 }
 
 const DMARK: &[u8] = b"\x01D\n";
 
 impl Sc {
     fn follow(&self) -> FollowMode {
+        if self.follow_at_end {
+            return FollowMode::L;
+        }
         match self.follow_flag.as_deref() {
             Some("-H") => FollowMode::H,
             Some("-L") => FollowMode::L,
@@ -63,6 +70,9 @@ impl Sc {
         a.push("-depth".into());
         a.extend(self.tests.iter().cloned());
         a.push("-print0".into());
+        if self.follow_at_end {
+            a.push("-follow".into());
+        }
         a
     }
 
@@ -79,6 +89,9 @@ impl Sc {
         a.push("\\001D\\n".into());
         if self.quit_on_failure {
             a.extend(["-o", "-quit", ")"].iter().map(|s| s.to_string()));
+        }
+        if self.follow_at_end {
+            a.push("-follow".into());
         }
         a
     }
@@ -130,6 +143,7 @@ impl Property for C10 {
                 maxdepth: None,
                 tests: vec!["-type".into(), "d".into(), "-name".into(), "b*".into()],
                 quit_on_failure: false,
+                follow_at_end: false,
             };
         }
         let follow_flag = match rng.weighted(&[45, 10, 20, 25]) {
@@ -139,6 +153,9 @@ impl Property for C10 {
             _ => Some("-L".to_string()),
         };
         let follows_inside = follow_flag.as_deref() == Some("-L");
+        // the same follow mode, now and then spelled `-follow` after the action
+        let follow_at_end = follows_inside && rng.chance(1, 4);
+        let follow_flag = if follow_at_end { None } else { follow_flag };
         // names that are not valid UTF-8 (then no racing mutator: its paths are strings)
         let raw_byte = if rng.chance(1, 5) { Some(*rng.pick(&[0xffu8, 0xe9, 0xc3, 0x80])) } else { None };
         let nroots = rng.small(1, 3);
@@ -283,6 +300,7 @@ impl Property for C10 {
             maxdepth: if rng.chance(1, 5) { Some(rng.urange(0, 4)) } else { None },
             tests,
             quit_on_failure: rng.chance(1, 6),
+            follow_at_end,
         }
     }
 
